@@ -117,7 +117,7 @@ SUBCHECKS = [
 ]
 
 TECHNIQUE = "property-based testing (Hypothesis): encode/decode round trip over constructed well-formed coding graphs"
-LEVEL_TEXT = ("Generated-input search with a round-trip oracle: about 3,300 (quick) / 45,000 (thorough) cases over "
+LEVEL_TEXT = ("Generated-input search with a round-trip oracle: about 7,900 (quick) / 45,000 (thorough) cases plus a fixed family of 1,100..3,800-bit messages over "
               "well-formed arc-subset graphs of order 1..3 / 1..5 with mixed out-degrees 1..4, every start vertex "
               "class, permutation tables, both modes, empty/all-zero/odd-length messages and check lengths 1..12; "
               "class floors guarantee that out-degree 1, out-degree 3 and shuffled out-degree-2/3 vertices are "
